@@ -1,4 +1,5 @@
 import ColoVerif.Proofs.Freespace
+import ColoVerif.Proofs.GeomTie
 /-
 C15 — free row space is exactly the rows minus fixed obstructions.
 
@@ -156,5 +157,32 @@ example : ¬ Obstructs ⟨0, 10, 0, 4⟩ ⟨3, 5, 2, 2⟩ 4 := by simp only [Obs
 example : SameUpToIgnored [⟨1, 1, 0, 0, .N, false, true, .ANY⟩, ⟨2, 2, 0, 0, .N, true, true, .ANY⟩]
     [⟨2, 2, 0, 0, .N, true, true, .ANY⟩, ⟨9, 9, 5, 5, .E, true, false, .SAME⟩] :=
   .dropLeft rfl (.keep _ (.dropRight rfl .nil))
+
+/-- The shared geometry layer this property's model is written in is *translated from the C++ source*:
+the definitions of `Gen/GeomFns.lean`, regenerated on every run from the clang AST of the bodies of
+`Rectangle::Rectangle / width / height / intersects / contains / intersection`,
+`Circuit::isFixed / isObstruction / x / y / orientation / placedWidth / placedHeight / placement` and
+`isTurn`, are equal as functions to the hand-written `Rect.*` / `Cell.*` used by `Row.freespace`,
+`Circuit.obstacles` (`Cell.placement` of the cells with `fixed && obstruction`) and by the statements
+above (`Rect.intersects`).  A semantic change of one of these bodies breaks this theorem.  (That
+`Row::freespace` itself — boost::polygon — computes the model's list remains the correspondence stream's job.) -/
+theorem geometry_layer_translated :
+    Gen.Geom.Rectangle_ctor = Rect.mk ∧ Gen.Geom.Rectangle_ctor0 = ⟨0, 0, 0, 0⟩ ∧
+    Gen.Geom.Rectangle_width = Rect.width ∧ Gen.Geom.Rectangle_height = Rect.height ∧
+    Gen.Geom.Rectangle_intersects = Rect.intersects ∧ Gen.Geom.Rectangle_contains = Rect.contains ∧
+    Gen.Geom.Rectangle_intersection = Rect.intersection ∧
+    Gen.Geom.isTurn = Orient.isTurn ∧
+    Gen.Geom.Circuit_isFixed = Cell.fixed ∧ Gen.Geom.Circuit_isObstruction = Cell.obstruction ∧
+    Gen.Geom.Circuit_x = Cell.x ∧ Gen.Geom.Circuit_y = Cell.y ∧ Gen.Geom.Circuit_orientation = Cell.orient ∧
+    Gen.Geom.Circuit_placedWidth = Cell.placedWidth ∧ Gen.Geom.Circuit_placedHeight = Cell.placedHeight ∧
+    Gen.Geom.Circuit_placement = Cell.placement :=
+  ⟨GeomTie.gen_Rectangle_ctor_eq_model, GeomTie.gen_Rectangle_ctor0_eq_model.2,
+   GeomTie.gen_Rectangle_width_eq_model, GeomTie.gen_Rectangle_height_eq_model,
+   GeomTie.gen_Rectangle_intersects_eq_model, GeomTie.gen_Rectangle_contains_eq_model,
+   GeomTie.gen_Rectangle_intersection_eq_model, GeomTie.gen_isTurn_eq_model,
+   GeomTie.gen_Circuit_isFixed_eq_model, GeomTie.gen_Circuit_isObstruction_eq_model,
+   GeomTie.gen_Circuit_x_eq_model, GeomTie.gen_Circuit_y_eq_model, GeomTie.gen_Circuit_orientation_eq_model,
+   GeomTie.gen_Circuit_placedWidth_eq_model, GeomTie.gen_Circuit_placedHeight_eq_model,
+   GeomTie.gen_Circuit_placement_eq_model⟩
 
 end ColoVerif.C15
